@@ -69,6 +69,7 @@ type S struct {
 	all    []*gor
 	wake   chan struct{}
 	held   map[uintptr]*gor
+	heldV  map[uintptr]reflect.Value // the real mutex behind each write lock recorded in held
 	rheld  map[uintptr]int
 	panics []PanicInfo
 	wg     sync.WaitGroup
@@ -158,9 +159,18 @@ func (s *S) spawn(name string, fn func()) {
 			g.done = true
 			g.parked = false
 			// release locks still recorded for this goroutine (a panic may skip Unlock bookkeeping)
+			// (the real mutex is unlocked as well: a goroutine that died in a critical section would
+			// otherwise wedge every later Lock - in the test process as it would in production)
 			for k, h := range s.held {
 				if h == g {
 					delete(s.held, k)
+					if v, ok := s.heldV[k]; ok {
+						delete(s.heldV, k)
+						func() {
+							defer func() { recover() }()
+							callMethod(v, "Unlock")
+						}()
+					}
 				}
 			}
 			s.mu.Unlock()
@@ -217,6 +227,7 @@ func lock(p any, loc string, read bool) {
 		s.rheld[key]++
 	} else {
 		s.held[key] = g
+		s.heldV[key] = v
 	}
 	s.mu.Unlock()
 	callMethod(v, name)
@@ -236,6 +247,7 @@ func unlock(p any, read bool) {
 			}
 		} else {
 			delete(s.held, key)
+			delete(s.heldV, key)
 		}
 		s.mu.Unlock()
 	}
@@ -253,7 +265,7 @@ func Run(schedule []Deviation, horizon time.Duration, body func(s *S)) Result {
 	if WaitIdle == nil {
 		panic("vsched: WaitIdle is not set")
 	}
-	s := &S{byGoid: map[int64]*gor{}, wake: make(chan struct{}, 1), held: map[uintptr]*gor{}, rheld: map[uintptr]int{}}
+	s := &S{byGoid: map[int64]*gor{}, wake: make(chan struct{}, 1), held: map[uintptr]*gor{}, heldV: map[uintptr]reflect.Value{}, rheld: map[uintptr]int{}}
 	if !cur.CompareAndSwap(nil, s) {
 		panic("vsched: nested Run")
 	}
